@@ -18,31 +18,32 @@ MAY = ('unwrap', 'expect', 'unwrap_err', 'expect_err', 'index', 'index_mut', 're
 NOPANIC_RECV = ('HashMap', 'HashSet', 'BTreeMap', 'BTreeSet', 'Mapping', 'FxHash')
 
 
-TRANSPARENT = ('iter', 'iter_mut', 'into_iter', 'enumerate', 'deref', 'deref_mut', 'as_ref', 'as_mut', 'borrow', 'clone', 'map', 'collect', 'values', 'keys', 'as_str')
+TRANSPARENT = ('iter', 'iter_mut', 'into_iter', 'enumerate', 'deref', 'deref_mut', 'as_ref', 'as_mut', 'borrow', 'clone', 'map', 'collect', 'values', 'keys', 'as_str',
+               'cloned', 'copied', 'zip', 'by_ref')
 
 
 def root_sig(t, depth=0):
     """stable, line-free description of where a value comes from (private helper names and closures are dropped)"""
-    if depth > 14:
+    if depth > 40:
         return '…'
     t = peel(t)
     k = t[0]
     if k == 'arg':
-        return t[2]
+        return 'self' if t[2] == 'self' else 'a%d' % t[1]
     if k == 'field':
         if t[2].isdigit():
-            return root_sig(t[1], depth + 1)
+            return root_sig(t[1], depth)
         return '%s.%s' % (root_sig(t[1], depth + 1), t[2])
     if k == 'index':
         return '%s[]' % root_sig(t[1], depth + 1)
     if k == 'as':
-        return root_sig(t[1], depth + 1)
+        return root_sig(t[1], depth)
     if k == 'call':
         last = t[1].split('::')[-1]
         if not t[2]:
             return last + '()'
         if last in TRANSPARENT:
-            return root_sig(t[2][0], depth + 1)
+            return root_sig(t[2][0], depth)
         if last == 'next':
             return 'each(%s)' % root_sig(t[2][0], depth + 1)
         if last in ('get', 'index', 'index_mut', 'get_mut') and len(t[2]) > 1:
@@ -50,8 +51,8 @@ def root_sig(t, depth=0):
         return '%s(%s)' % (last, root_sig(t[2][0], depth + 1))
     if k == 'agg':
         return t[1].split('::')[-1].lower()
-    if k in ('phi', 'var'):
-        return t[-1] if isinstance(t[-1], str) else 'var'
+    if k in ('phi', 'var', 'local'):
+        return 'var'
     if k == 'int':
         return str(t[1])
     if k == 'bin':
@@ -116,6 +117,122 @@ def inventory(P):
     return out
 
 
+def _mentions_len(t):
+    return any(x[0] == 'call' and x[1].endswith(('::len', '::count')) for x in walk(t))
+
+
+def index_like(f, t, b, depth=0):
+    """value known to be <= isize::MAX: a collection length/position/enumeration index, a small constant, or a variable that is
+    compared `< len(..)` on the way to block b (the sum of two such values cannot overflow a usize)"""
+    if depth > 6:
+        return False
+    t = peel(t)
+    c = canon(strip_refs(t))
+    for _, a in f.guard_atoms(b):
+        if a[0] == 'cmp' and a[1] in ('lt', 'le') and a[2] == c and _mentions_len(a[3]):
+            return True
+        if a[0] == 'cmp' and a[1] in ('gt', 'ge') and a[3] == c and _mentions_len(a[2]):
+            return True
+    if t[0] == 'int':
+        return 0 <= t[1] < 2 ** 62
+    if t[0] == 'call':
+        last = t[1].split('::')[-1]
+        if last in ('len', 'count'):
+            return True
+        return False
+    if t[0] == 'field' and t[2] == '0':
+        inner = peel(t[1])
+        # (position(..) as Some).0 / item.0 of an enumerate()
+        if inner[0] == 'as' and inner[2] == 'Some':
+            src = peel(inner[1])
+            if src[0] == 'call' and src[1].split('::')[-1] in ('position', 'rposition'):
+                return True
+            if src[0] == 'call' and src[1].endswith('::next'):
+                it = src[2][0] if src[2] else None
+                if it is not None and any(x[0] == 'call' and x[1].endswith('::enumerate') for x in walk(it)):
+                    return True
+                # Range<usize> up to an index-like bound
+                rng = [x for x in walk(it)] if it is not None else []
+                rng = [x for x in rng if x[0] == 'agg' and 'ops::Range' in str(x[1]) and len(x[2]) == 2]
+                if rng and index_like(f, rng[0][2][1], b, depth + 1):
+                    return True
+        if inner[0] == 'field' and inner[2] == '0':
+            return index_like(f, inner, b, depth + 1)
+        return False
+    if t[0] == 'as' and t[2] == 'Some':
+        return index_like(f, ('field', t, '0', ''), b, depth + 1)
+    if t[0] == 'phi':
+        return all(index_like(f, x, b, depth + 1) for x in t[1])
+    return False
+
+
+def local_lt_len(f, L, b):
+    """MIR level: block b is dominated by the true edge of a test `L < <something with len()>` and L is not reassigned between
+    that test and b (loop-carried variables have context-dependent expression trees, so this does not compare trees)"""
+    from .engine.helpers import _chase, _chase_local
+    defs_L = [d for d in f._defs() if d[0] == L]
+    for (sblk, cond, val) in f.guards(b):
+        t = f.term(sblk)
+        if t['k'] != 'switch':
+            continue
+        rv = _chase(f, {'k': 'use', 'o': t['d']})
+        if rv is None or rv['k'] != 'binop' or rv['op'] not in ('Lt', 'Le'):
+            continue
+        truth = (val[0] == 'eq' and val[1] != 0) or (val[0] == 'ne' and tuple(val[1]) == (0,))
+        if not truth or _chase_local(f, rv['a']) != L:
+            continue
+        if not _mentions_len(f.expr_operand(rv['b'], sblk, 'T')):
+            continue
+        between = f.reach_from(sblk)
+        clobber = [d for d in defs_L if d[1] in between and d[1] != sblk and b in f.reach_from(d[1]) and d[1] != b and f.dominates(sblk, d[1]) and not _back_only(f, d[1], b, sblk)]
+        if not clobber:
+            return True
+    return False
+
+
+def _back_only(f, x, b, sblk):
+    """x reaches b only by going around the loop through sblk again (so the test is re-evaluated after the reassignment)"""
+    seen = set()
+    st = [x]
+    while st:
+        y = st.pop()
+        for z in f.succs(y):
+            if z == sblk or z in seen:
+                continue
+            if z == b:
+                return False
+            seen.add(z); st.append(z)
+    return True
+
+
+def auto_safe(f, kind, site):
+    """general arguments that discharge a may-panic construct without a table entry; returns the reason or None"""
+    b = site.b if hasattr(site, 'b') else site
+    t = f.term(b)
+    if kind.startswith('overflow:Add') and t['k'] == 'assert':
+        c = peel(f.expr_operand(t['c'], b, 'T'))
+        if c[0] == 'field' and c[1][0] == 'bin' and c[1][1].startswith('Add'):
+            x, y = c[1][2], c[1][3]
+            from .engine.helpers import _chase, _chase_local
+            rv = _chase(f, {'k': 'use', 'o': {'k': 'copy', 'p': {'l': t['c']['p']['l'], 'pr': [{'k': 'field', 'i': 0}]}}}) if t['c'].get('p') else None
+            ops = [rv['a'], rv['b']] if rv is not None and rv['k'] in ('binop', 'cbinop') else [None, None]
+            def ok_operand(tree, op):
+                if index_like(f, tree, b):
+                    return True
+                L = _chase_local(f, op) if op is not None and op.get('k') in ('copy', 'move') else None
+                return L is not None and local_lt_len(f, L, b)
+            if ok_operand(x, ops[0]) and ok_operand(y, ops[1]):
+                return 'sum of two values bounded by collection lengths (each <= isize::MAX) cannot overflow usize'
+    if kind in ('unwrap', 'expect') and hasattr(site, 'args') and site.args:
+        recv = peel(f.expr_operand(site.args[0], b, 'T'))
+        if recv[0] == 'call' and recv[1].split('::')[-1] in ('split_first', 'split_last', 'first', 'last', 'first_mut', 'last_mut') and recv[2]:
+            subj = canon(strip_refs(recv[2][0]))
+            for _, a in f.guard_atoms(b):
+                if a[0] == 'bool' and a[2] is False and a[1][0] == 'call' and a[1][1].endswith('::is_empty') and a[1][2] and a[1][2][0] == subj:
+                    return 'first/last element of a slice that was tested non-empty on the way here'
+    return None
+
+
 def _guarded(f, site_b, pred):
     return any(pred(a) for _, a in f.guard_atoms(site_b))
 
@@ -132,35 +249,35 @@ TABLE = {
          lambda f, b: _guarded(f, b, lambda a: a[0] == 'bool' and a[1][0] == 'call' and a[1][1].endswith('::is_empty') and a[2] is False)),
     '<tree::Symbol as std::ops::Deref>::deref|index|self|rangefull': ('full-range slice of a String never panics', None),
     # ---- transform: dependency ordering loop, idx < modules.len() is the loop guard
-    'transform|index|def.modules|rangefrom':
+    'transform|index|a1.modules|rangefrom':
         ('modules[idx..] under the loop guard idx < modules.len()', lambda f, b: _guarded(f, b, _lt_len)),
-    'transform|swap|def.modules|idx':
+    'transform|swap|a1.modules|var':
         ('swap(idx, next): next = position within modules[idx..] + idx < len', lambda f, b: _guarded(f, b, _lt_len)),
-    'transform|index|def.modules|idx':
+    'transform|index|a1.modules|var':
         ('modules[idx] under the loop guard idx < modules.len()', lambda f, b: _guarded(f, b, _lt_len)),
-    'transform|overflow:Add|(position(index(def.modules,rangefrom))+idx)': ('next + idx < modules.len() <= isize::MAX', None),
-    'transform|overflow:Add|(idx+1)': ('idx < modules.len() <= isize::MAX', None),
+    'transform|overflow:Add|(position(index(a1.modules,rangefrom))+var)': ('next + idx < modules.len() <= isize::MAX', None),
+    'transform|overflow:Add|(var+1)': ('idx < modules.len() <= isize::MAX', None),
     # ---- connections
     'transform_connection_endpoint_inner|panic|panic_fmt|accessors must be non-empty':
         ('callers pass ConnectionEndpointDef::accessors (str::split yields >= 1 element, and no element is filtered away) or accessors[1..] of a slice with len >= 2',
          lambda f, b: _accessors_nonempty(f)),
     'transform_connection_endpoint_inner|bounds|0': ('accessors[0] after the non-empty assertion', None),
-    'transform_connection_endpoint_inner|index|accessors|rangefrom':
+    'transform_connection_endpoint_inner|index|a2|rangefrom':
         ('accessors[1..] in the else-branch of len() == 1 of a non-empty slice',
          lambda f, b: _guarded(f, b, lambda a: a[0] == 'cmp' and a[1] == 'ne' and a[3] == ('int', 1))),
     # ---- transform_module
-    'transform_module|index|ident.args|each(range)': ('i ranges over 0..ident.args.len() and j over (i+1)..ident.args.len()', None),
+    'transform_module|index|a1.args|each(range)': ('i ranges over 0..ident.args.len() and j over (i+1)..ident.args.len()', None),
     'transform_module|overflow:Add|(each(range)+1)': ('i < ident.args.len() <= isize::MAX', None),
-    'transform_module|expect|get(nodes,def.inherit)|':
+    'transform_module|expect|get(a3,a2.inherit)|':
         ('the parent is inserted into required_symbols last (after bindings are removed), and the ordering loop only admits a module once every required symbol is provided',
          lambda f, b: _inherit_required_last(f)),
     # ---- transform_submodule
-    'transform_submodule|expect|get(nodes,inner_ty_to_outer_ty(ident))|':
+    'transform_submodule|expect|get(a4,inner_ty_to_outer_ty(a2))|':
         ('the submodule type (or, for a binding, its bound) is in required_symbols of the enclosing module, hence already transformed', None),
-    'transform_submodule|index|typ.args|each(cloned(get(nodes,typ.ident)))':
+    'transform_submodule|index|a3.args|each(get(a4,a3.ident))':
         ('i enumerates req_args and req_args.len() == typ.args.len() was checked above',
          lambda f, b: _guarded(f, b, lambda a: a[0] == 'cmp' and a[1] == 'eq' and all(any(x[0] == 'call' and x[1].endswith('::len') for x in walk(s)) for s in (a[2], a[3])))),
-    'transform_submodule|expect|get(nodes,each(cloned(get(…,…))).bound)|':
+    'transform_submodule|expect|get(a4,each(get(a4,a3.ident)).bound)|':
         ('the bound of a generic parameter is required by the generic module itself, which was transformed earlier', None),
 }
 
@@ -211,7 +328,10 @@ def r1_panic_inventory(ctx):
             continue
         ent = TABLE.get(key)
         if ent is None:
-            # loop variable names differ in phi naming: try a relaxed match on (fn, kind, receiver)
+            why = auto_safe(f, kind, site)
+            if why:
+                ctx.ok('may-panic construct discharged by a general argument: %s' % why, where, key)
+                continue
             ctx.violation('untabled:%s' % key,
                           'the NDL front end can panic here on some description document (construct not in the audited table): %s' % key, where)
             continue
@@ -282,7 +402,30 @@ def r3_substitution(ctx):
     if not f:
         return
     stores = [(b, i, st) for (b, i, st) in f.writes_to_field('typ') if any(x[0] == 'call' and x[1].endswith('Clone>::clone') or (x[0] == 'call' and x[1].endswith('::clone')) for x in walk(f.expr_rvalue(st['r'], b, i)))]
-    if not ctx.floor('placeholder substitution in transform_submodule', len(stores), 1):
+    if not stores:
+        # iterator form: node.submodules.iter_mut().filter(..).for_each(|s| s.typ = replacement.clone()) inside the loop over the bindings
+        P = ctx.P
+        n2 = 0
+        for s in f.calls():
+            if (s.callee or '') != 'std::iter::Iterator::for_each' or len(s.args) != 2:
+                continue
+            it = f.expr_operand(s.args[0], s.b, 'T')
+            cl = peel(f.expr_operand(s.args[1], s.b, 'T'))
+            g = P.fns.get(cl[1][len('closure:'):]) if cl[0] == 'agg' and str(cl[1]).startswith('closure:') else None
+            if g is None:
+                continue
+            w = [(b, i, st) for (b, i, st) in g.writes_to_field('typ') if any(x[0] == 'call' and x[1].endswith('::clone') for x in walk(g.expr_rvalue(st['r'], b, i)))]
+            if not w:
+                continue
+            n2 += 1
+            whole = any(x[0] == 'call' and x[1].endswith('iter_mut') and any(y[0] == 'field' and y[2] == 'submodules' for y in walk(x)) for x in walk(it)) and \
+                not any(x[0] == 'call' and x[1].split('::')[-1] in ('take', 'skip', 'step_by', 'take_while', 'skip_while', 'nth', 'find', 'rev_take', 'peekable') for x in walk(it))
+            on_item = all(any(x[0] == 'arg' and x[1] == 2 for x in walk(g.expr_place({'l': st['p']['l'], 'pr': st['p']['pr'][:-1]}, b, i))) for (b, i, st) in w)
+            uncond = all(g.postdominates_entry(b) for (b, i, st) in w)
+            ctx.check(bool(f.loops_containing(s.b)) and whole and on_item and uncond, 'substitute-all',
+                      'for every type argument, every submodule whose type is the placeholder of that binding is replaced (for_each over all submodules)', s.where(),
+                      {'form': 'iterator', 'iterator': show(it)[:160]})
+        ctx.floor('placeholder substitution in transform_submodule', n2, 1)
         return
     for b, i, st in stores:
         depth = len(f.loops_containing(b))
